@@ -19,7 +19,8 @@ func parseArraiStringFragment(s string, validEscapes string, indent string) stri
 			panic(err)
 		}
 		sb.WriteRune(rune(n))
-		return i + size
+		// the caller's loop advances past the last digit
+		return i + size - 1
 	}
 
 	for i := 0; i < len(s); i++ {
